@@ -273,6 +273,8 @@ class Ctx:
         meta = dict(meta or {})
         if getattr(self, "exit_rel", None) is not None:
             meta.setdefault("exit", self.exit_rel)
+        if getattr(self, "exit_src", None) is not None:
+            meta.setdefault("exit_src", self.exit_src)
         if getattr(self, "pc_mark", None) is not None:
             meta.setdefault("pc_mark", self.pc_mark)
         done = []
